@@ -71,6 +71,7 @@ type Result struct {
 	Info      RunInfo        `json:"info"`
 	Choices   []int          `json:"choices,omitempty"`
 	Trace     []string       `json:"trace,omitempty"`
+	Known     map[string]int `json:"known,omitempty"`
 }
 
 // ReplayFile is the on-disk format of a replay (also written by the runner).
@@ -141,12 +142,21 @@ func WorkerMain(t *testing.T, harnesses map[string]Harness) {
 		s := NewSim(t, seed, replay, replaying)
 		s.SetTraceAll(traceAll)
 		s.SetChoiceSink(sink)
+		if kk, ok := p["known_keys"].([]any); ok {
+			s.KnownKeys = map[string]bool{}
+			for _, k := range kk {
+				if ks, ok := k.(string); ok {
+					s.KnownKeys[ks] = true
+				}
+			}
+		}
 		t0 := time.Now()
 		info := h(s, p)
 		r := Result{
 			Seed: seed, Outcome: "ok", Steps: s.Steps, NChoices: len(s.Choices), LogHash: s.LogHash(),
 			WallUs: time.Since(t0).Microseconds(), Faults: s.Faults, Probes: s.Probes, Info: info,
 		}
+		r.Known = s.KnownHit
 		if v := s.Violation(); v != nil {
 			r.Outcome = "violation"
 			r.Key, r.Detail = v.Key, v.Detail
